@@ -414,7 +414,8 @@ inline Msg genResponse(pbt::Src &src, const GenOpts &o, const std::string &metho
   if (noBody)
   {
     // headers may still describe the body a GET would have returned
-    framing = interim ? 0 : (int)src.weighted({3, 3, http10 ? 0 : 1});
+    // 1xx and 204 never carry a framing field (sender MUST NOT: RFC 9110 §8.6, RFC 9112 §6.1); HEAD / 304 may
+    framing = (interim || code == 204) ? 0 : (int)src.weighted({3, 3, http10 ? 0 : 1});
     if (framing == 1) { fields.push_back(Field{"Content-Length", decLen(src, (std::size_t)src.range(0, 5000))}); hotName = "content-length"; }
     if (framing == 2) { fields.push_back(Field{"Transfer-Encoding", "chunked"}); hotName = "transfer-encoding"; }
     renderFields(src, fields, m, hotName);
